@@ -111,7 +111,7 @@ Section Proofs.
   Proof.
     intros HI. unfold Model.step, Model.stepe.
     destruct (dead p) eqn:Ep; [exact HI|].
-    destruct (pc s p) as [|c|c|c q|c q|c|] eqn:Epc.
+    destruct (pc s p) as [|c|c|c q|c q|c| |] eqn:Epc.
     - apply inv_sym; assumption.
     - apply inv_sym; assumption.
     - destruct (link s) as [q|] eqn:El; cbn [fst].
@@ -157,6 +157,23 @@ Section Proofs.
         assert (Hp : holds s p = true) by (unfold holds; rewrite Epc; reflexivity).
         destruct (I1 _ Hp) as [E' _]. congruence.
       + apply inv_goto; [exact HI | exact I | intros; discriminate | intros; discriminate].
+    - (* unlock() first, on an inherited object *)
+      destruct (link s) as [q|] eqn:El; cbn [fst].
+      + destruct (Nat.eqb q p) eqn:Eq; cbn [fst].
+        * apply Nat.eqb_eq in Eq. subst q.
+          destruct HI as (I1 & I2 & I3 & I4). unfold goto. split_inv.
+          -- intros r Hr. cbn [link]. destruct (Nat.eq_dec r p) as [->|Hne].
+             ++ split; [exact El | exact Ep].
+             ++ rewrite holds_upd_other in Hr by exact Hne. apply I1. destruct s; exact Hr.
+          -- intros r c' q' Hr. cbn [pc] in Hr. destruct (Nat.eq_dec r p) as [->|Hne].
+             ++ rewrite upd_same in Hr. discriminate.
+             ++ rewrite upd_other in Hr by exact Hne. eapply I2, Hr.
+          -- intros Hc q' Hq. cbn [link] in Hq. eapply I3; eassumption.
+          -- intros Hc r c' q' Hr. cbn [pc] in Hr. destruct (Nat.eq_dec r p) as [->|Hne].
+             ++ rewrite upd_same in Hr. discriminate.
+             ++ rewrite upd_other in Hr by exact Hne. eapply I4; eassumption.
+        * apply inv_goto; [exact HI | exact I | intros; discriminate | intros; discriminate].
+      + apply inv_goto; [exact HI | exact I | intros; discriminate | intros; discriminate].
   Qed.
 
   (** the guard: either the repaired protocol, or no dead owner in the initial link *)
@@ -173,6 +190,54 @@ Section Proofs.
 
   Lemma exec_inv l0 sched : guard l0 -> Inv (exec (init l0) sched).
   Proof. intros G. unfold Model.exec. apply run_invariant; [exact step_inv | apply init_inv, G]. Qed.
+
+  (** ---- any well-formed start (in particular: after forks) ---- *)
+  Definition wf_start (s0 : st) : Prop :=
+    (forall p, holds s0 p = true -> link s0 = Some p /\ dead p = false)
+    /\ (forall p c q, pc s0 p <> LRm c q)
+    /\ (forall p c q, pc s0 p <> LKill c q)
+    /\ (cas = false -> forall q, link s0 = Some q -> dead q = false).
+
+  Lemma wf_inv s0 : wf_start s0 -> Inv s0.
+  Proof.
+    intros (W1 & W2 & W3 & W4). split_inv.
+    - exact W1.
+    - intros p c q H. exfalso. eapply W2, H.
+    - exact W4.
+    - intros _ p c q H. exfalso. eapply W3, H.
+  Qed.
+
+  Lemma exec_inv_wf s0 sched : wf_start s0 -> Inv (exec s0 sched).
+  Proof. intros W. unfold Model.exec. apply run_invariant; [exact step_inv | apply wf_inv, W]. Qed.
+
+  Lemma init_fork_wf l0 held us :
+    (forall h, held = Some h -> dead h = false) ->
+    (held = None -> cas = true \/ forall d, l0 = Some d -> dead d = false) ->
+    wf_start (init_fork l0 held us).
+  Proof.
+    intros Hh Hl. unfold init_fork. destruct held as [h|]; unfold wf_start, holds; cbn [link pc].
+    - split; [|split; [|split]].
+      + intros p H. destruct (Nat.eqb p h) eqn:E.
+        * apply Nat.eqb_eq in E. subst p. split; [reflexivity | apply Hh; reflexivity].
+        * destruct (existsb (Nat.eqb p) us); discriminate.
+      + intros p c q H. destruct (Nat.eqb p h); [discriminate|]. destruct (existsb (Nat.eqb p) us); discriminate.
+      + intros p c q H. destruct (Nat.eqb p h); [discriminate|]. destruct (existsb (Nat.eqb p) us); discriminate.
+      + intros _ q H. inversion H; subst. apply Hh. reflexivity.
+    - split; [|split; [|split]].
+      + intros p H. destruct (existsb (Nat.eqb p) us); discriminate.
+      + intros p c q H. destruct (existsb (Nat.eqb p) us); discriminate.
+      + intros p c q H. destruct (existsb (Nat.eqb p) us); discriminate.
+      + intros Hc q H. destruct (Hl eq_refl) as [G|G]; [congruence | apply G, H].
+  Qed.
+
+  (** unlock() by a process that does not own the link: ValueError, link untouched, everybody else unmoved *)
+  Lemma ustart_refused s p q :
+    dead p = false -> pc s p = UStart -> link s = Some q -> q <> p ->
+    stepe s p = (goto s p Idle, EUNotOwner q).
+  Proof.
+    intros Hp Hpc Hl Hne. unfold Model.stepe. rewrite Hp, Hpc, Hl.
+    destruct (Nat.eqb_spec q p); [contradiction | reflexivity].
+  Qed.
 
   Lemma inv_mutex s : Inv s ->
     (forall p, holds s p = true -> link s = Some p /\ dead p = false)
@@ -193,7 +258,7 @@ Section Proofs.
   Proof.
     intros Hne. unfold Model.step, Model.stepe, sym, goto.
     destruct (dead q); [reflexivity|].
-    destruct (pc s q) as [|c|c|c r|c r|c|]; repeat (match goal with
+    destruct (pc s q) as [|c|c|c r|c r|c| |]; repeat (match goal with
       | |- context [match link s with _ => _ end] => destruct (link s)
       | |- context [if ?b then _ else _] => destruct b
       end); cbn [fst pc]; rewrite ?upd_other by (intro E; apply Hne; symmetry; exact E); reflexivity.
